@@ -32,7 +32,7 @@ IMPORTS = "From PKO Require Import NoPanic.\nFrom PKOCorr Require Import C19Corr
 
 ANCHORS = ["./internal/packages/internal/packagerender/...", "./internal/packages/internal/packageimport",
            "./internal/packages/internal/packagestructure", "./internal/packages/internal/packagevalidation",
-           "./internal/packages/internal/packagemanifestvalidation", "./internal/controllers",
+           "./internal/packages/internal/packagemanifestvalidation", "./internal/packages/internal/packagedeploy", "./internal/controllers",
            "./internal/controllers/objecttemplate", "./pkg/probing", "./internal/probing", "./internal/cmd",
            "./internal/transform", "pkg.package-operator.run/boxcutter/ownerhandling"]
 
@@ -45,8 +45,10 @@ F_E = ("C19 panic ownerhandling.(*OwnerStrategyAnnotation).getOwnerReferences: o
        "desired object is not JSON")
 F_F = ("C19 panic packagemanifestvalidation.validateSchemaStuffWithXPrefixedName: x-kubernetes-validations of the config "
        "schema compiled with a nil CEL environment set")
-FINDINGS = [F_A, F_B, F_C, F_D, F_E, F_F]
-BY_FUNC = {f.split(":")[0][len("C19 panic "):]: f for f in FINDINGS}
+F_G = ("C19 panic packagedeploy.validateUnique at `if err := uncachedClient.List(ctx, dst, &client.ListOptions{LabelSelector: s}); "
+       "err != nil {`")
+FINDINGS = [F_A, F_B, F_C, F_D, F_E, F_F, F_G]
+BY_FUNC = {f.split(":")[0][len("C19 panic "):]: f for f in FINDINGS if " at `" not in f}
 # the text of the source line a finding panics at: a different panic in the same function is a new violation
 FINDING_EXPR = {F_A: "panic(err)", F_B: "hdr.Name", F_C: ".(string)", F_D: "item.Destination[0]", F_E: "panic(err)", F_F: "cel.Compile("}
 
@@ -98,6 +100,8 @@ def cobs(o):
     obs = o.get("obs") or {}
     if obs.get("class") == "ok":
         return "(ObsOk %s)" % cN(obs_count(obs))
+    if obs.get("class") == "runaway":
+        return "ObsRunaway"
     return "ObsErr"
 
 
@@ -137,7 +141,7 @@ def run_sites():
 
 
 KINDS = {"assert": "KAssert", "index": "KIndex", "panic": "KPanic", "must": "KMust", "nilderef": "KNilderef",
-         "recursion": "KRecursion", "nilarg": "KNilarg", "nilfield": "KNilfield", "dyncmp": "KDyncmp"}
+         "recursion": "KRecursion", "nilarg": "KNilarg", "nilfield": "KNilfield", "dyncmp": "KDyncmp", "unsetfield": "KUnsetfield"}
 
 
 def site_term(s):
@@ -235,7 +239,7 @@ def panic_identity(o):
     text = panic_line(o)
     if ident and FINDING_EXPR[ident] in text:
         return ident
-    return "C19 panic %s at `%s`" % (f, text[:120])
+    return "C19 panic %s at `%s`" % (f, text[:160])
 
 
 def _limits():
@@ -281,7 +285,10 @@ def run_scenarios(scs, par=8, chunk=200):
         for k in range(0, len(idxs), step):
             work(idxs[k:k + step])
 
-    chunks = [list(range(i, min(len(scs), i + chunk))) for i in range(0, len(scs), chunk)]
+    # scenarios marked solo (a runaway would be a fatal stack overflow of the harness) get a process of their own
+    solo = [i for i, sc in enumerate(scs) if sc.get("solo")]
+    rest = [i for i, sc in enumerate(scs) if not sc.get("solo")]
+    chunks = [[i] for i in solo] + [rest[i:i + chunk] for i in range(0, len(rest), chunk)]
     with ThreadPoolExecutor(max_workers=par) as ex:
         list(ex.map(work, chunks))
     return res
@@ -1184,6 +1191,121 @@ def gen_probe(r):
     return {"target": "probe", "probes": [{"probes": probes, "selector": sel}] if r.random() < 0.9 else r.choice([[], [{}], [{"probes": None}]]), "object": obj}, "ScOpaque"
 
 
+# ---- package controllers (both deployers through the real controllers)
+CONSTRAINTS = [
+    None, "  - platform: [Kubernetes]\n", "  - platform: [OpenShift]\n", "  - platform: [Nope]\n", "  - platform: []\n",
+    "  - platformVersion: {name: Kubernetes, range: \">=1.20.x\"}\n", "  - platformVersion: {name: Kubernetes, range: \">>1\"}\n",
+    "  - platformVersion: {name: Kubernetes, range: \"\"}\n", "  - platformVersion: {name: OpenShift, range: \">=4.1.x\"}\n",
+    "  - platformVersion: {name: OpenShift, range: \"garbage\"}\n", "  - platformVersion: {name: Nope, range: \"x\"}\n",
+    "  - platformVersion: {name: \"\", range: \">=1\"}\n", "  - uniqueInScope: {}\n",
+    "  - uniqueInScope: {}\n  - platform: [Kubernetes]\n", "  - uniqueInScope: {}\n    platform: [OpenShift]\n    platformVersion: {name: Kubernetes, range: \"<1.0.0\"}\n",
+    "  - uniqueInScope: {}\n  - uniqueInScope: {}\n", "  - {}\n",
+]
+ENVS = [{"kubernetes": {"version": "v1.29.0"}}, {"kubernetes": {"version": "v1.29.0"}, "openShift": {"version": "4.15.1"}},
+        {"kubernetes": {"version": "not-a-version"}, "openShift": {"version": ""}}]
+
+
+def controller_sc(constraint, cluster, others, env, files_extra=None, passes=2):
+    man = manifest_yaml(["deploy"], "" if constraint is None else "  constraints:\n" + constraint)
+    files = {"manifest.yaml": man, "a.yaml": obj_yaml("a", {A_PHASE: "deploy"})}
+    files.update(files_extra or {})
+    return {"target": "controller", "render": render_sc(files, env=env), "cluster": cluster, "others": others, "manifest_name": "test", "passes": passes}
+
+
+def controller_corpus():
+    """Every constraint kind x namespaced / cluster scope x 0 / 1 / 2 other packages of the same manifest x platform."""
+    return [(controller_sc(c, cl, n, e), "ScOpaque") for c in CONSTRAINTS for cl in (False, True) for n in (0, 1, 2) for e in ENVS]
+
+
+def gen_controller(r):
+    if r.random() < 0.5:
+        sc, _ = gen_pipeline_damaged(r)
+        while sc["target"] != "pipeline":
+            sc, _ = gen_pipeline_damaged(r)
+        return {"target": "controller", "render": sc["render"], "cluster": r.random() < 0.5, "others": r.choice([0, 0, 1, 2]),
+                "manifest_name": r.choice(["test", "t", "second"]), "passes": r.choice([1, 2])}, "ScOpaque"
+    extra = {}
+    if r.random() < 0.3:
+        extra["b.yaml"] = obj_yaml("b", {A_PHASE: "deploy", A_CONDMAP: r.choice(["A => B", "bad", ""])})
+    return controller_sc(r.choice(CONSTRAINTS), r.random() < 0.5, r.choice([0, 1, 2, 3]), r.choice(ENVS), extra, r.choice([1, 2, 3])), "ScOpaque"
+
+
+# ---- include recursion shapes
+INCLUDE_LIMIT = 1000  # transform.recursionDepth: an include is refused when more than this many of the same name are active
+
+
+def helper(name, body):
+    return '{{- define "%s" -}}{{- enter -}}%s{{- leave -}}{{- end -}}\n' % (name, body)
+
+
+def include_shapes():
+    """(label, template text with enter/leave ticks, data, number of helper names, expected class)"""
+    out = []
+    leaf_first = ('{{- if .leaf -}}leaf{{- else -}}{{- include "walk" (dict "leaf" true) -}}{{- include "walk" . -}}{{- end -}}')
+    out.append(("self-include after a returning leaf call", helper("walk", leaf_first) + '{{- include "walk" (dict "leaf" false) -}}', None, 1, "err"))
+    out.append(("self-include after two returning leaf calls",
+                helper("walk", '{{- if .leaf -}}l{{- else -}}{{- include "walk" (dict "leaf" true) -}}{{- include "walk" (dict "leaf" true) -}}{{- include "walk" . -}}{{- end -}}')
+                + '{{- include "walk" (dict "leaf" false) -}}', None, 1, "err"))
+    out.append(("direct endless self-include", helper("a", '{{- include "a" . -}}') + '{{- include "a" . -}}', None, 1, "err"))
+    out.append(("mutual recursion a -> b -> a", helper("a", '{{- include "b" . -}}') + helper("b", '{{- include "a" . -}}') + '{{- include "a" . -}}', None, 2, "err"))
+    out.append(("mutual recursion with a separate leaf helper",
+                helper("leaf", "x") + helper("a", '{{- include "leaf" . -}}{{- include "b" . -}}') + helper("b", '{{- include "leaf" . -}}{{- include "a" . -}}')
+                + '{{- include "a" . -}}', None, 3, "err"))
+    out.append(("mutual recursion, each helper first includes itself for a leaf",
+                helper("a", '{{- if .leaf -}}l{{- else -}}{{- include "a" (dict "leaf" true) -}}{{- include "b" . -}}{{- end -}}')
+                + helper("b", '{{- if .leaf -}}l{{- else -}}{{- include "b" (dict "leaf" true) -}}{{- include "a" . -}}{{- end -}}')
+                + '{{- include "a" (dict "leaf" false) -}}', None, 2, "err"))
+    out.append(("self-include after a returning call of another helper",
+                helper("leaf", "x") + helper("walk", '{{- include "leaf" . -}}{{- include "walk" . -}}') + '{{- include "walk" . -}}', None, 2, "err"))
+    out.append(("leaf call, then template action, then self-include",
+                helper("walk", '{{- if .leaf -}}l{{- else -}}{{- include "walk" (dict "leaf" true) -}}{{- template "t" . -}}{{- include "walk" . -}}{{- end -}}')
+                + '{{- define "t" -}}t{{- end -}}{{- include "walk" (dict "leaf" false) -}}', None, 1, "err"))
+    counter = '{{- if lt (int .n) (int .k) -}}{{- include "c" (dict "n" (add1 .n) "k" .k) -}}{{- end -}}'
+    for k in (0, 1, 3, 50, 500, INCLUDE_LIMIT - 1, INCLUDE_LIMIT, INCLUDE_LIMIT + 1, INCLUDE_LIMIT + 2, 2 * INCLUDE_LIMIT):
+        # a chain of k+1 nested bodies: just under, at and over the guard's limit
+        out.append(("counter chain k=%d" % k, helper("c", counter) + '{{- include "c" (dict "n" 0 "k" %d) -}}' % k, None, 1,
+                    "ok" if k + 1 <= INCLUDE_LIMIT + 1 else "err"))
+    leafy = ('{{- if .leaf -}}l{{- else -}}{{- include "c" (dict "leaf" true) -}}{{- if lt (int .n) (int .k) -}}'
+             '{{- include "c" (dict "n" (add1 .n) "k" .k "leaf" false) -}}{{- end -}}{{- end -}}')
+    for k in (3, 200, INCLUDE_LIMIT - 1, INCLUDE_LIMIT, INCLUDE_LIMIT + 50):
+        # every level first includes itself for a call that returns at once, then goes one level deeper
+        out.append(("counter chain with a leaf call per level k=%d" % k, helper("c", leafy) + '{{- include "c" (dict "n" 0 "k" %d "leaf" false) -}}' % k, None, 1,
+                    "ok" if k + 1 <= INCLUDE_LIMIT else "err"))
+    tree = '{{- if lt (int .n) (int .k) -}}{{- include "t" (dict "n" (add1 .n) "k" .k) -}}{{- include "t" (dict "n" (add1 .n) "k" .k) -}}{{- end -}}'
+    for k in (1, 5, 9):
+        out.append(("binary tree depth %d" % k, helper("t", tree) + '{{- include "t" (dict "n" 0 "k" %d) -}}' % k, None, 1, "ok"))
+    for k in (2, 30):
+        text = "".join(helper("h%d" % i, '{{- include "h%d" . -}}' % (i + 1)) for i in range(k)) + helper("h%d" % k, "end") + '{{- include "h0" . -}}'
+        out.append(("chain of %d distinct helpers" % (k + 1), text, None, k + 1, "ok"))
+    out.append(("data-driven recursion over a finite tree",
+                helper("n", '{{- range .children -}}{{- include "n" . -}}{{- end -}}') + '{{- include "n" . -}}',
+                {"children": [{"children": [{"children": []}, {"children": []}]}, {"children": []}]}, 1, "ok"))
+    out.append(("include of an undefined helper", '{{- include "nope" . -}}', None, 1, "err"))
+    return out
+
+
+def strip_ticks(text):
+    return text.replace("{{- enter -}}", "").replace("{{- leave -}}", "")
+
+
+def include_corpus():
+    out = []
+    for label, text, data, names, expect in include_shapes():
+        sc = {"target": "include", "text": text, "data": data if data is not None else {}, "max_depth": (INCLUDE_LIMIT + 1) * names + 25,
+              "label": label, "names": names, "expect": expect}
+        out.append((sc, "(ScInclude %s @DEPTH@)" % cN(names)))
+        # the same template through the package pipeline, without the harness ticks: only the watchdog protects this run
+        files = {"manifest.yaml": manifest_yaml(["deploy"]), "a.yaml": obj_yaml("a", {A_PHASE: "deploy"}),
+                 "c.yaml.gotmpl": "# " + strip_ticks(text).replace("\n", "\n# ") + "\n"}
+        cfg = data if isinstance(data, dict) else None
+        psc = {"target": "pipeline", "render": render_sc(files), "label": "pipeline: " + label, "solo": expect == "err"}
+        if cfg is not None:
+            # the data of the shape is reachable as .config in a package template; keep the shape as is where it needs no data
+            continue
+        out.append((psc, "ScOpaque"))
+    return out
+
+
 def gen_all(seed, tier):
     r = vlib.rng(seed, "C19")
     out = []
@@ -1226,12 +1348,12 @@ def gen_all(seed, tier):
     for t in offsets:
         add(gen_oci_truncation(entries, t)[:2])
 
-    for p in schema_corpus() + probe_shape_corpus():
+    for p in schema_corpus() + probe_shape_corpus() + controller_corpus() + include_corpus():
         add(p)
 
-    n = 4700 if tier == "quick" else 196000
+    n = 3600 if tier == "quick" else 196000
     weights = [("collector", 10), ("collector-cli", 2), ("pipeline", 22), ("oci", 10), ("mapconditions", 14), ("template-conditions", 14),
-               ("template-source", 8), ("template-reconcile", 5), ("owner", 5), ("probe", 10)]
+               ("template-source", 8), ("template-reconcile", 5), ("owner", 5), ("probe", 10), ("controller", 6)]
     names = [w[0] for w in weights]
     for _ in range(n):
         t = r.choices(names, [w[1] for w in weights])[0]
@@ -1253,6 +1375,8 @@ def gen_all(seed, tier):
             add(gen_template_reconcile(r))
         elif t == "owner":
             add(gen_owner(r))
+        elif t == "controller":
+            add(gen_controller(r))
         else:
             add(gen_probe(r))
     return out
@@ -1273,12 +1397,15 @@ def check(run, tier, seed, replay=None):
         "the site inventory is syntactic (go/types): unchecked assertions, index/slice expressions on slices/strings/arrays, explicit panic, Must* helpers, "
         "pointer results used before an unconditional err != nil check, direct recursion, nil passed to a pointer/interface parameter of another module, "
         "dereferences of pointer-typed struct fields (and of locals assigned from them) with a same-function nil-check dominance heuristic, ==/!= on two "
-        "operands of type any; `guarded` is a heuristic and part of a site's identity; not covered: nil dereference of parameters, locals and call results, "
+        "operands of type any, nilable struct fields that one constructor sets and another leaves out while the package calls through them, template "
+        "functions that execute templates again (guard flag: bound check + increment before + decrement after the nested execution); `guarded` is a heuristic and part of a site's identity; not covered: nil dereference of parameters, locals and call results, "
         "map keys of interface type, switch on dynamic values",
         "verdicts ByConstruction / Library / Validated of the table are reviewed claims about the code, checked by proof only where a stage model exists "
         "(condition map, collector, mapConditions, ObjectTemplate conditions and source items, FromOCI, annotation owner strategy)",
         "cluster objects are what a client decodes from API server JSON (maps, slices, string, bool, int64, float64, nil); ownerReferences apiVersion is "
-        "validated by kube-apiserver", "exponential-time inputs (template include bombs) are bounded and not counted as runaway recursion",
+        "validated by kube-apiserver", "exponential-time inputs (template include bombs) are bounded and not counted as runaway recursion; the include guard's nesting bound "
+        "(recursionDepth + 1) x helper names is proven for the guard model and monitored on the depth the harness counts; recursion through the "
+        "`template` action is left to text/template's own depth limit",
         "the JSON model covers ASCII keys, integers below 1e15 and the RFC 3339 shape dddd-dd-ddTdd:dd:ddZ; the generator stays inside it for modelled cases"]
     vlib.std_proof_stage(run, "C19")
     inv = inventory_stage(run)
@@ -1301,6 +1428,10 @@ def check(run, tier, seed, replay=None):
     for i, ((sc, scen), o) in enumerate(zip(pairs, outs)):
         if o is None or "died" in o or "timeout" in o or ("err" in o and "obs" not in o and "panic" not in o):
             continue
+        if "@DEPTH@" in scen:
+            m = re.search(r"depth=(\d+)", (o.get("obs") or {}).get("info", ""))
+            scen = scen.replace("@DEPTH@", cN(int(m.group(1)) if m else 0))
+            pairs[i] = (sc, scen)
         t = cP(scen, cobs(o))
         where.setdefault(t, []).append(i)
     terms = list(where)
@@ -1338,6 +1469,12 @@ def check(run, tier, seed, replay=None):
         elif "obs" in o:
             ob = o["obs"]
             run.classes.add((tgt, ob.get("class"), ob.get("stage", ""), ob.get("err", "")))
+            if ob.get("class") == "runaway":
+                run.violation("C19 runaway recursion: includes nest beyond the guard's bound of (recursionDepth + 1) per helper name",
+                              {"scenario": slim(sc), "impl": ob}, True)
+            elif tgt == "include" and sc.get("expect") and ob.get("class") != sc["expect"]:
+                run.violation("corr:C19/include shape outcome differs from the generator's expectation (%s)" % sc.get("label"),
+                              {"correspondence": "expected %s" % sc["expect"], "scenario": slim(sc), "impl": ob}, False)
         else:
             run.violation("corr:C19/harness error", {"scenario": slim(sc), "out": o}, False)
             continue
@@ -1350,8 +1487,13 @@ def check(run, tier, seed, replay=None):
         if not agree:
             run.violation("corr:C19/model and implementation differ (%s)" % tgt,
                           {"correspondence": "C19Corr.agree", "scenario": slim(sc), "model": scen, "impl": o.get("obs") or {"panic": o.get("panic"), "func": panic_func(o)}}, False)
-        if mon == ("panic" in o):
+        bad = "panic" in o or (o.get("obs") or {}).get("class") == "runaway"
+        if mon and bad:
             run.violation("corr:C19/monitor evaluation inconsistent", {"scenario": slim(sc), "impl": o}, False)
+        elif not mon and not bad:
+            # the monitor's nesting bound (include_bound_ok) failed on the depth the harness counted
+            run.violation("C19 runaway recursion: includes nest beyond the guard's bound of (recursionDepth + 1) per helper name",
+                          {"scenario": slim(sc), "model": scen, "impl": o.get("obs")}, True)
 
     # inventory verdict, after the fuzz had its chance to reach the unknown sites
     if inv:
@@ -1373,7 +1515,8 @@ def check(run, tier, seed, replay=None):
     run.cov["modelled_cases"] = modelled
     run.cov["rule"] = ("fixed corpus (witnesses of the _v0 refutations, a five-entry tar stream truncated at every header/body boundary - every byte "
                        "offset in thorough; exhaustive small scope over list/map/combinator shapes of the config schema; fieldsEqual over every pair of JSON "
-                       "shapes), then mostly-valid inputs with one damaged aspect per sub-target (pipeline, cli, oci, probe, mapconditions, "
+                       "shapes; every manifest constraint kind x both package controllers x 0/1/2 other packages of the manifest; include recursion shapes with a nesting "
+                       "tick and, without the tick, through the package pipeline each in a process of its own), then mostly-valid inputs with one damaged aspect per sub-target (pipeline, cli, oci, probe, mapconditions, "
                        "template-conditions, template-source, template-reconcile, ownerannotation); non-trivial & distinct = distinct (target, outcome class, "
                        "stage, error class | panic function) tuples")
     ex = [i for i, o in enumerate(outs) if o and "obs" in o][:2] + [i for i, o in enumerate(outs) if o and "panic" in o][:1]
